@@ -952,7 +952,7 @@ func (self *PathNode) GetByStr(key string, opts *Options) *PathNode {
 		N := n * 2
 		// TODO: cap may change after Set. Use better way to store hash size
 		// only a map above the threshold has been stored by hash (see scanChildren)
-		if N > 0 && n > StoreChildrenByIntHashShreshold && cap(self.Next) >= N {
+		if N > 0 && n > StoreChildrenByIntHashShreshold && len(self.Next) >= N {
 			if s := getStrHash(&self.Next, key, N); s != nil {
 				return s
 			}
@@ -986,7 +986,7 @@ func (self *PathNode) SetByStr(key string, val Node, opts *Options) (bool, error
 		N := n * 2
 		// TODO: cap may change after Set. Use better way to store hash size
 		// only a map above the threshold has been stored by hash (see scanChildren)
-		if N > 0 && n > StoreChildrenByIntHashShreshold && cap(self.Next) >= N {
+		if N > 0 && n > StoreChildrenByIntHashShreshold && len(self.Next) >= N {
 			if s := getStrHash(&self.Next, key, N); s != nil {
 				s.setNode(val)
 				return true, nil
@@ -1025,7 +1025,7 @@ func (self *PathNode) GetByInt(key int, opts *Options) *PathNode {
 		n, _ := self.Node.len()
 		N := n * 2
 		// only a map above the threshold has been stored by hash (see scanChildren)
-		if N > 0 && n > StoreChildrenByIntHashShreshold && cap(self.Next) >= N {
+		if N > 0 && n > StoreChildrenByIntHashShreshold && len(self.Next) >= N {
 			if s := getIntHash(&self.Next, uint64(key), N); s != nil {
 				return s
 			}
@@ -1058,7 +1058,7 @@ func (self *PathNode) SetByInt(key int, val Node, opts *Options) (bool, error) {
 		n, _ := self.Node.len()
 		N := n * 2
 		// only a map above the threshold has been stored by hash (see scanChildren)
-		if N > 0 && n > StoreChildrenByIntHashShreshold && cap(self.Next) >= N {
+		if N > 0 && n > StoreChildrenByIntHashShreshold && len(self.Next) >= N {
 			if s := getIntHash(&self.Next, uint64(key), N); s != nil {
 				s.setNode(val)
 				return true, nil
@@ -1233,6 +1233,9 @@ func (self *PathNode) scanChildren(p *thrift.BinaryProtocol, recurse bool, opts 
 				guardPathNodeSlice(&con, N-1)
 				// the probe inspects slots before they are stored: a re-used array has to start empty
 				clearPathNodes(con[:N])
+				// the table IS the first N children: the getters probe only below len(Next), so a slot
+				// array that was truncated or re-filled some other way is never taken for a table
+				con = con[:N]
 				conAddr = *(*unsafe.Pointer)(unsafe.Pointer(&con))
 				c = N
 			}
@@ -1259,6 +1262,9 @@ func (self *PathNode) scanChildren(p *thrift.BinaryProtocol, recurse bool, opts 
 				guardPathNodeSlice(&con, N-1)
 				// the probe inspects slots before they are stored: a re-used array has to start empty
 				clearPathNodes(con[:N])
+				// the table IS the first N children: the getters probe only below len(Next), so a slot
+				// array that was truncated or re-filled some other way is never taken for a table
+				con = con[:N]
 				conAddr = *(*unsafe.Pointer)(unsafe.Pointer(&con))
 				c = N
 			}
